@@ -1384,19 +1384,28 @@ fn main() {
         // a replay file holds request lines; re-evaluate the oracle on what they describe
         let lines = read_case(p);
         let mut cur_build: Option<String> = None;
+        let mut cur_sa: Option<String> = None;
         for l in lines {
             let r = emit(&mut s, &mut st, l.clone());
             println!("impl  {l} -> {}", if r.len() > 200 { &r[..200] } else { &r });
             let toks: Vec<&str> = l.split(' ').collect();
             match toks.as_slice() {
+                ["begin", ..] => cur_sa = None,
+                ["sa", _] => cur_sa = Some(l.clone()),
+                _ => {}
+            }
+            match toks.as_slice() {
                 ["build", kind, rest @ ..] => {
                     cur_build = Some(l.clone());
                     let blk = if *kind == "chunked" || *kind == "suffixb" { rest.first().and_then(|x| x.parse().ok()).unwrap_or(1 << 20) } else { 1 << 20 };
-                    let begin = format!("begin {} {}", hex(&st.old), hex(&st.new));
+                    // (a large case: the `sa` line its `@sa` refers to goes with the pair)
+                    let mut ctx = vec![format!("begin {} {}", hex(&st.old), hex(&st.new))];
+                    ctx.extend(cur_sa.iter().cloned());
+                    ctx.push(l.clone());
                     match build(kind, blk, &st.old, &st.new) {
                         Err(e) => {
                             let shp = if st.new.is_empty() { "empty-new" } else if st.old.is_empty() { "empty-old" } else { "nonempty" };
-                            s.oracle_fail(&format!("build-fails:{kind}:{shp}"), &format!("{kind} returned {e}"), &[begin, l.clone()]);
+                            s.oracle_fail(&format!("build-fails:{kind}:{shp}"), &format!("{kind} returned {e} (|old|={} |new|={})", st.old.len(), st.new.len()), &ctx);
                         }
                         Ok(p) => {
                             let shp = split_patch(&p).map(|b| shape(&b.ctl)).unwrap_or("unparsable");
@@ -1405,9 +1414,10 @@ fn main() {
                                     Ok(v) if v == st.new => {}
                                     Ok(v) => {
                                         let what = if v.len() != st.new.len() { "wrong-length" } else { "wrong-bytes" };
-                                        s.oracle_fail(&format!("{what}:{kind}:{shp}"), &format!("{kind} patch applied by {} returns Ok with other bytes", mode_txt(m)), &[begin.clone(), l.clone()]);
+                                        let pos = v.iter().zip(st.new.iter()).position(|(a, b)| a != b).unwrap_or(v.len().min(st.new.len()));
+                                        s.oracle_fail(&format!("{what}:{kind}:{shp}"), &format!("{kind} patch applied by {} returns Ok with {} bytes differing from new at offset {pos} (|old|={} |new|={})", mode_txt(m), v.len(), st.old.len(), st.new.len()), &ctx);
                                     }
-                                    Err(e) => s.oracle_fail(&format!("apply-fails:{kind}:{shp}"), &format!("{kind} patch rejected by {}: {e}", mode_txt(m)), &[begin.clone(), l.clone()]),
+                                    Err(e) => s.oracle_fail(&format!("apply-fails:{kind}:{shp}"), &format!("{kind} patch rejected by {}: {e}", mode_txt(m)), &ctx),
                                 }
                             }
                         }
